@@ -462,6 +462,10 @@ pub fn run_check(spec: &CheckSpec, tier: Tier, seed: u64) -> i32 {
         cmd.arg(start.map(|k| k.to_string()).unwrap_or_else(|| "-".to_string()));
         cmd.arg(skip.iter().map(|k| k.to_string()).collect::<Vec<_>>().join(","));
         cmd.stdin(std::process::Stdio::null());
+        // workers' stderr (allocation-failure messages, backtraces) goes to a file next to their result
+        if let Ok(f) = std::fs::File::create(out.with_extension("stderr")) {
+            cmd.stderr(f);
+        }
         let child = cmd.spawn().expect("spawn worker");
         W { child, out, prog, last_ctr: 0, last_change: Instant::now(), done: false, index: i, skip: skip.to_vec(), respawns: gen }
     };
